@@ -384,3 +384,14 @@ def receive_rules_and_counters(b):
     "nothing_is_emitted_on_a_miss": lambda res: emitted(b) == [],
   })
 receive_rules_and_counters.bound = "three ports; empty flow table (lookup is C03)"
+
+
+# ---------------------------------------------------------------- port config bits "set via port-mod" (added 2026-09-25)
+# The units above take the port's config / state bits as symbolic inputs; the property quantifies over bit combinations
+# *set via port-mod*, so the step port-mod -> config bits (proved for C13 in c13_replies.port_mod: masked bits take the new
+# value, others keep theirs, link state follows PORT_DOWN) is an obligation of C12 as well (seeded change C12_6).
+import contracts.c13_replies as _R13
+unit(P, target=_R13.SW + "SoftwareSwitchBase._rx_port_mod / _set_port_config_bit, ofp_phy_port.set_config",
+     name="port_mod_sets_exactly_the_masked_config_bits")(_R13.port_mod)
+for _u in _R13.PORT_MOD_BIT_UNITS:
+  unit(P, target=_R13.SW + "SoftwareSwitchBase._rx_port_mod / _set_port_config_bit, ofp_phy_port.set_config")(_u)
